@@ -65,10 +65,16 @@ func TestVerifC02(t *testing.T) {
 	roots := []string{vBundledRoot}
 	if g := vGenRoot(); g != "" {
 		roots = append(roots, g)
+		if x := vGenExtraRoot(); x != "" {
+			roots = append(roots, x)
+		}
 	}
 	var cfgs []c02Cfg
 	for _, root := range roots {
 		for _, ap := range vAssetPaths(root) {
+			if !vExtraWanted(root, ap, "x_thumbs_1s_before_text", "x_two_video_grids") {
+				continue
+			}
 			a, err := vAsset(root, ap)
 			if err != nil || !a.LoopExact {
 				continue
